@@ -16,6 +16,8 @@ Definition run (kind : Z) (inp : list Z) : list Z :=
   | 302 => run_cache inp
   | 303 => run_admission inp
   | 401 => run_life true inp
+  | 501 => run_restart true inp
+  | 502 => run_osync inp
   | 601 => run_accept inp
   | 701 => run_accept_paths inp
   | 702 => run_open_path inp
@@ -55,6 +57,8 @@ Definition mon (kind : Z) (inp obs : list Z) : bool :=
   | 302 => mon_cache inp obs
   | 303 => mon_admission inp obs
   | 401 => mon_life inp obs
+  | 501 => mon_restart inp obs
+  | 502 => list_eqb_Z (run_osync inp) obs
   | 601 => mon_accept inp obs
   | 701 => mon_accept_paths inp obs
   | 702 => mon_open_path inp obs
